@@ -684,16 +684,20 @@ def _mentions(run, t, prefix, depth=3):
 
 
 def halfrank_roles(it, env):
-    """the locals of HalfRankComponent.warp at loop entry, found by what they ARE (never by their names)"""
+    """the values the below-median loop of HalfRankComponent works with, found by what they ARE (never by their names, and wherever the loop
+    lives: in `warp` itself or in a helper method it calls -- the helper's parameters are then the locals)"""
     run = it.run
     ranks = [v for v in env.values() if isinstance(v, NDArray) and hasattr(v, 'ranks_of')]
-    uniq = [v for v in env.values() if isinstance(v, NDArray) and hasattr(v, 'unique_of')]
-    if len(ranks) != 1 or len(uniq) != 1:
-        raise Unsupported('loop contract of HalfRankComponent.warp: expected one rankdata(...) result and one np.unique(...) result among the locals')
-    ranks, uniq = ranks[0], uniq[0]
+    if len(ranks) != 1:
+        raise Unsupported('loop contract of HalfRankComponent.warp: expected one rankdata(...) result among the locals of the loop')
+    ranks = ranks[0]
     labels = [k for k, v in env.items() if v is ranks.ranks_of[0]]
     if len(labels) != 1:
-        raise Unsupported('loop contract of HalfRankComponent.warp: the array passed to rankdata is not a (single) local')
+        raise Unsupported('loop contract of HalfRankComponent.warp: the array passed to rankdata is not a (single) local of the loop')
+    uniq = [u for u in run.__dict__.get('np_uniques', []) if u.unique_of[0] is ranks.ranks_of[0]]
+    if len(uniq) != 1:
+        raise Unsupported('loop contract of HalfRankComponent.warp: expected one np.unique(...) of the finite labels before the loop')
+    uniq = uniq[0]
     scal = {}
     for k, v in env.items():
         if isinstance(v, float):
@@ -702,13 +706,13 @@ def halfrank_roles(it, env):
             scal[k] = v
     med = [k for k, v in scal.items() if z3.is_const(v) and v.decl().name().startswith('nanmedian!')]
     if len(med) != 1:
-        raise Unsupported('loop contract of HalfRankComponent.warp: expected exactly one np.nanmedian(...) result among the locals')
+        raise Unsupported('loop contract of HalfRankComponent.warp: expected exactly one np.nanmedian(...) result among the locals of the loop')
     den = [k for k, v in scal.items() if k != med[0] and _mentions(run, v, 'ssplit!')]
     std = [k for k, v in scal.items() if k != med[0] and k not in den]
     if len(den) != 1 or len(std) != 1:
         raise Unsupported('loop contract of HalfRankComponent.warp: cannot identify the rank denominator / the estimated std among the float locals %s'
                           % sorted(scal))
-    ss = [v for v in env.values() if z3.is_expr(v) and v.sort() == z3.IntSort() and z3.is_const(v) and v.decl().name().startswith('ssplit!')]
+    ss = [s_ for (a_, v_, s_, side_) in run.__dict__.get('np_searchsorted', []) if a_ is uniq]
     return {'labels': labels[0], 'ranks': ranks, 'u': uniq, 'median': scal[med[0]], 'den': scal[den[0]], 'std': scal[std[0]], 's': ss[0] if len(ss) == 1 else None}
 
 
@@ -730,6 +734,34 @@ def halfrank_inv(it, fr, ctx):
         it.run.c18['ax0'] = len(it.run.axioms)
     i = ctx.i
     return [('pointwise_map', QA(cur.shape[0], lambda j: cur.at(j) == z3.If(j < i, spec(j), ent.at(j))))]
+
+
+def halfrank_loop_role(it, fr, node, itobj):
+    """the loop of HalfRankComponent that walks the labels together with their dense ranks (any of the forms enumerate(zip(..)), range(len(..)),
+    enumerate(..)), in `warp` or in a private method called from it"""
+    f = fr
+    while f is not None and f.func is None:
+        f = f.parent
+    if f is None or not f.func.qualname.startswith('HalfRankComponent.'):
+        return None
+    if any(isinstance(v, NDArray) and hasattr(v, 'ranks_of') for v in fr.env.values()):
+        return E.LoopSpec(halfrank_inv)
+    return None
+
+
+def hr_unwarp_loop_role(it, fr, node, itobj):
+    """the loop of HalfRankComponent that applies the saved unwarper to every label (no rank array among its locals)"""
+    f = fr
+    while f is not None and f.func is None:
+        f = f.parent
+    if f is None or not f.func.qualname.startswith('HalfRankComponent.'):
+        return None
+    if any(isinstance(v, NDArray) and hasattr(v, 'ranks_of') for v in fr.env.values()) or it.run.__dict__.get('np_ranks'):
+        return None
+    return E.LoopSpec(hr_unwarp_inv)
+
+
+W.ROLE_LOOPS[:] = [halfrank_loop_role, hr_unwarp_loop_role]
 
 
 def halfrank_entry(it):
@@ -859,7 +891,7 @@ def halfrank_steps(sc, p):
 
 
 Spec('HalfRankComponent.warp', ['HalfRankComponent.warp', 'HalfRankComponent._estimate_std_of_good_half', '_validate_labels'], halfrank_entry, halfrank_steps,
-     skip_strong=halfrank_skip, loops=[(HR_LOOP, E.LoopSpec(halfrank_inv))], native='halfrank')
+     skip_strong=halfrank_skip, native='halfrank')
 
 
 # =========================================================================================== HalfRankComponent._estimate_std_of_good_half
@@ -1023,7 +1055,7 @@ def hr_unwarp_steps(sc, p):
 
 
 Spec('HalfRankComponent.unwarp', ['HalfRankComponent.unwarp', '_validate_labels'], hr_unwarp_entry(True), hr_unwarp_steps,
-     loops=[(HRU_LOOP, E.LoopSpec(hr_unwarp_inv))], native='halfrank_unwarp')
+     native='halfrank_unwarp')
 Spec('HalfRankComponent.unwarp[first]', ['HalfRankComponent.unwarp'], hr_unwarp_entry(False), unwarp_first_steps, native='halfrank_unwarp_first')
 
 
